@@ -64,6 +64,10 @@ func exec(op string) vlib.Res {
 		if need(4) {
 			return execCachef(f)
 		}
+	case "doh run":
+		if need(6) {
+			return execDoH(f)
+		}
 	case "nsaddr run":
 		if need(3) {
 			return execNsAddr(f)
@@ -396,6 +400,59 @@ func genXchg(r *vlib.R, emit func(string)) {
 		cands = append(cands, mk(r.Intn(10)))
 	}
 	emit(fmt.Sprintf("xchg run %s %d %s %s", proto, qid, q, strings.ReplaceAll(listOrDash(cands), ",", ";")))
+}
+
+// genDoH: one DoH exchange of dnsclient.Client (the forwarder's transport): the query ID is 0 in a third
+// of the cases (what RFC 8484 clients send), the reply's ID is the query's, 0, or anything else.
+func genDoH(r *vlib.R, emit func(string)) {
+	qid := r.Intn(65536)
+	if r.Chance(1, 3) {
+		qid = 0
+	}
+	zone := vlib.Pick(r, baseZones[1:])
+	qn := under(vlib.Pick(r, someLabels), zone)
+	qt := vlib.Pick(r, []int{1, 28, 16})
+	q := fmt.Sprintf("%s/%d/1", qn, qt)
+	if r.Chance(1, 25) {
+		q = "-"
+	}
+	id := qid
+	switch r.Intn(5) {
+	case 0:
+		id = 0
+	case 1, 2:
+		id = wrongID(r, qid)
+	case 3:
+		id = 0xBEEF
+	}
+	name, t, c := qn, qt, 1
+	switch r.Intn(8) {
+	case 0:
+		name = related(r, zone)
+		if !packable(name) {
+			name = "other." + zone
+		}
+	case 1:
+		t = 5
+	case 2:
+		c = 3
+	case 3:
+		name = flipCase(r, qn)
+	}
+	cand := fmt.Sprintf("%d%s:%s/%d/%d", id, hdrFlags(r), name, t, c)
+	switch r.Intn(20) {
+	case 0:
+		cand = "e"
+	case 1:
+		cand = "h"
+	case 2:
+		cand = "c"
+	case 3:
+		cand = fmt.Sprintf("%d:", id)
+	case 4:
+		cand = fmt.Sprintf("%d:%s/%d/1+www.victim.test./1/1", id, qn, qt)
+	}
+	emit(fmt.Sprintf("doh run %d %s %s %s", qid, q, cand, vlib.B(r.Chance(1, 8))))
 }
 
 // wrongID: an ID other than qid - neighbours, special values (0, 0xffff), byte swaps, single-bit flips.
@@ -771,7 +828,11 @@ func gen(r *vlib.R, n int, tier string, emit func(string)) {
 			}
 			emit(fmt.Sprintf("name cmp %s %s", a, b))
 		case k < 8:
-			genXchg(r, emit)
+			if r.Chance(1, 6) {
+				genDoH(r, emit)
+			} else {
+				genXchg(r, emit)
+			}
 		case k < 12:
 			genGlue(r, local, emit)
 		case k < 16:
@@ -913,6 +974,56 @@ func filterBeforeSplice(file string) bool {
 			}
 		}
 		return filterAt >= 0 && spliceAt > filterAt
+	}
+	return false
+}
+
+// dnameTargetResolvedSeparately inspects Resolver.checkDname: the target response it hands back is the
+// result of r.internalExchange (the target's own resolution) and nothing else - every return whose first
+// result is not nil returns the identifier assigned from that call, and resp.Answer is never read there.
+func dnameTargetResolvedSeparately(file string) bool {
+	fset := token.NewFileSet()
+	f, err := parser.ParseFile(fset, file, nil, 0)
+	if err != nil {
+		return false
+	}
+	for _, d := range f.Decls {
+		fd, ok := d.(*ast.FuncDecl)
+		if !ok || fd.Name.Name != "checkDname" || fd.Body == nil {
+			continue
+		}
+		fromExchange := map[string]bool{}
+		readsAnswer, ok2 := false, true
+		ast.Inspect(fd.Body, func(n ast.Node) bool {
+			switch x := n.(type) {
+			case *ast.AssignStmt:
+				if len(x.Rhs) == 1 {
+					if c, ok := x.Rhs[0].(*ast.CallExpr); ok {
+						if s, ok := c.Fun.(*ast.SelectorExpr); ok && s.Sel.Name == "internalExchange" {
+							if id, ok := x.Lhs[0].(*ast.Ident); ok {
+								fromExchange[id.Name] = true
+							}
+						}
+					}
+				}
+			case *ast.SelectorExpr:
+				if id, ok := x.X.(*ast.Ident); ok && id.Name == "resp" && x.Sel.Name == "Answer" {
+					readsAnswer = true
+				}
+			case *ast.ReturnStmt:
+				if len(x.Results) > 0 {
+					if id, ok := x.Results[0].(*ast.Ident); ok {
+						if id.Name != "nil" && !fromExchange[id.Name] {
+							ok2 = false
+						}
+					} else {
+						ok2 = false
+					}
+				}
+			}
+			return true
+		})
+		return len(fromExchange) > 0 && !readsAnswer && ok2
 	}
 	return false
 }
@@ -1102,10 +1213,12 @@ func facts() map[string]any {
 			b := callOrder(rfile, "lookupNSAddrV6", "searchAddrs", "AddrFromSlice", "AddrFrom4", "AddrFrom16")
 			return a[0] >= 0 && b[0] >= 0 && a[1] < 0 && a[2] < 0 && a[3] < 0 && b[1] < 0 && b[2] < 0 && b[3] < 0
 		}(),
-		"in_zone_probe":        inZone,
-		"question_match_probe": qm,
-		"progressing_probe":    prog,
-		"compare_suffix_probe": cmp,
+		// the DNAME target spliced in by answer() after the zone filter is the target's own resolution, never part of the same message
+		"shape_dname_target_resolved_separately": dnameTargetResolvedSeparately(rfile),
+		"in_zone_probe":                          inZone,
+		"question_match_probe":                   qm,
+		"progressing_probe":                      prog,
+		"compare_suffix_probe":                   cmp,
 	}
 }
 
